@@ -730,11 +730,11 @@ class RefProblem:
                     continue
                 x = w[j] - s * g[j]
                 u, vmin = pen.prox_1d(x, s, j)
-                if not pen.convex:
+                res[j] = abs(w[j] - u)
+                if not pen.convex and res[j] > 1e-6 * (1 + abs(u)):
                     vw = float(pen.prox_obj_1d(w[j], x, s, j))
                     if leq(vw, vmin, rel=1e-12):
-                        continue  # w_j is itself a global minimiser: a fixed point
-                res[j] = abs(w[j] - u)
+                        res[j] = 0.0  # a tie: w_j is another global minimiser, hence a fixed point
         elif pen.kind in RefPenalty.GRP:
             groups = pen.p["groups"]
             res = np.zeros(len(groups))
@@ -759,9 +759,10 @@ class RefProblem:
                     continue
                 x = w[j] - s * g[j]
                 u, vmin = pen.prox_block(x, s, j)
-                if not pen.convex and leq(pen.prox_block_obj(w[j], x, s, j), vmin, rel=1e-12):
-                    continue
                 res[j] = norm(w[j] - u)
+                if not pen.convex and res[j] > 1e-6 * (1 + norm(u)) and \
+                        leq(pen.prox_block_obj(w[j], x, s, j), vmin, rel=1e-12):
+                    res[j] = 0.0
         else:
             raise KeyError(pen.kind)
         ib = float(np.max(np.abs(self.df.grad_b(self.X, self.y, w, b)))) if self.fit_intercept else 0.0
